@@ -48,6 +48,7 @@ type hgen struct {
 	ptrs   []*pointer
 	funcs  []function
 	types  []*structType
+	bulkSizes    int // how many entries of the bulk size table may be drawn
 	lastAddrItem int // index in items of the last input that took the address of a slot-kind variable (-1: none)
 	anySlotAddr  bool
 }
@@ -150,6 +151,9 @@ func (g *hgen) newScalar() variable {
 func (g *hgen) newComposite() variable {
 	v := variable{name: g.Local("v")}
 	k := g.Pick(5, "composite")
+	if len(g.types) > 0 && g.Chance(1, 3, "prefer-struct") {
+		k = 0
+	}
 	if k == 0 && len(g.types) == 0 {
 		k = 1
 	}
@@ -341,6 +345,13 @@ func (g *hgen) takeAddr() {
 	v := g.vars[g.Pick(len(g.vars), "addr-var")]
 	p := &pointer{name: g.Local("p")}
 	how := "var"
+	if v.typ == "complex128" && vrec.Known("F-C14-3") {
+		// known finding: &v of a complex128 variable does not compile. Excluded by construction.
+		vrec.Excluded("F-C14-3")
+		g.Tag("avoided:F-C14-3")
+		g.assign()
+		return
+	}
 	switch {
 	case v.cls == "struct" && g.Chance(2, 3, "addr-field"):
 		f := v.st.fields[g.Pick(len(v.st.fields), "field")]
@@ -526,7 +537,7 @@ func bulkValue(kind string, i int) string {
 
 // bulk declares n further variables in one or many inputs.
 func (g *hgen) bulk() {
-	n := []int{10, 200, 1100, 2100}[rapid.SampledFrom([]int{0, 0, 1, 1, 2, 2, 2, 3}).Draw(g.T, "bulk-size")]
+	n := []int{10, 200, 1100, 2100}[rapid.SampledFrom([]int{0, 0, 1, 1, 2, 2, 2, 3}[:g.bulkSizes]).Draw(g.T, "bulk-size")]
 	shape := g.OneOf("bulk-shape", "each", "each", "one", "group", "chunks")
 	// kinds repeat with a short drawn period, so that few draws describe many declarations
 	period := 1
@@ -621,6 +632,20 @@ func (g *hgen) bulk() {
 		g.readVar(v)
 	}
 	late := bv[n-1-g.Pick(min(n, 8), "bulk-late")]
+	if late.typ == "complex128" && vrec.Known("F-C14-3") {
+		vrec.Excluded("F-C14-3")
+		g.Tag("avoided:F-C14-3")
+		for i := n - 1; i >= 0; i-- {
+			if bv[i].typ != "complex128" {
+				late = bv[i]
+				break
+			}
+		}
+	}
+	if late.typ == "complex128" { // a bulk of complex128 only
+		g.vars = append(g.vars, bv...)
+		return
+	}
 	p := &pointer{name: g.Local("p"), elem: late, target: late.name, slot: late.slot}
 	g.add(fmt.Sprintf("%s := &%s", p.name, late.name))
 	g.ptrs = append(g.ptrs, p)
@@ -681,7 +706,7 @@ func (g *hgen) finish() {
 
 // Generate builds one REPL history.
 func Generate(t *rapid.T, px string) gobatch.Program {
-	g := &hgen{G: progen.New(t, px, 0), lastAddrItem: -1}
+	g := &hgen{G: progen.New(t, px, 0), lastAddrItem: -1, bulkSizes: 8}
 	mode := "eval"
 	if g.Chance(1, 4, "mode") {
 		mode = "reader"
